@@ -56,8 +56,8 @@ func fieldStores(a *ssa.Alloc) map[string][]ssa.Value {
 
 // C19: third-party frames survive only for allow-listed services.
 func C19(p *core.Program, r *core.Report) {
-	r.Explanation = "H1: HasRootDomain's decision structure equals `parse the URL (after http: prefixing of scheme-relative values); host == root or host ends with \".\"+root` (decision-list conformance on the SSA of the function). H2: in every function of package embed, each construction of a webdoc.Embed is unreachable once the `true` edges of its HasRootDomain tests are removed (guard-cut), i.e. an embed is only produced for a URL that passed the host test. H3: the constant root arguments are exactly the documented allow-list and are paired with the matching Type literal; the id is computed from the same URL value that was tested. H4: iframe/object/embed fall into converter switch clauses that return false without StartNode, so an unrecognised frame is dropped."
-	r.NotCovered = "parsing of ids/params from path and query (string-valued behaviour), net/url's own host parsing, placeholder rendering details (C05/C09)."
+	r.Explanation = "H1: HasRootDomain's decision structure equals `parse the URL (after http: prefixing of scheme-relative values); host == root or host ends with \".\"+root` (decision-list conformance on the SSA of the function). H2: in every function of package embed, each construction of a webdoc.Embed is unreachable once the `true` edges of its HasRootDomain tests are removed (guard-cut), i.e. an embed is only produced for a URL that passed the host test. H3: the constant root arguments are exactly the documented allow-list and are paired with the matching Type literal; the id is computed from the same URL value that was tested. H5: Embed.GenerateOutput builds the placeholder as a DOM element whose data-type/data-id attributes are the embed's Type/ID and serialises it with dom.OuterHTML (escaping by the serializer). H4: iframe/object/embed fall into converter switch clauses that return false without StartNode, so an unrecognised frame is dropped."
+	r.NotCovered = "parsing of ids/params from path and query (string-valued behaviour), net/url's own host parsing, what surrounds the placeholder (C05/C09)."
 
 	// H1
 	hrd := mustFunc(p, r, "H1", hasRootDomainKey)
@@ -211,6 +211,30 @@ func C19(p *core.Program, r *core.Report) {
 		}
 		for _, a := range allocsOf(fn, "/internal/webdoc", "Embed") {
 			r.Add("H2", core.ShortKey(fn)+": webdoc.Embed built outside package embed", p.Pos(a.Pos()), false, "embed placeholders may only be created by the extractors that test the host")
+		}
+	}
+
+	// H5: the placeholder carries exactly the extracted type and id: it is built as a DOM element
+	// (attributes set through dom.SetAttribute, so the serializer escapes them) and serialised
+	// with dom.OuterHTML.
+	if gen := mustFunc(p, r, "H5", "(*mod/internal/webdoc.Embed).GenerateOutput"); gen != nil {
+		c := core.NewCanon(p)
+		div := `dom.CreateElement("div")`
+		attrs := map[string]string{}
+		for _, call := range core.Calls(gen, func(ci ssa.CallInstruction) bool { return core.IsCallTo(ci, "github.com/go-shiori/dom.SetAttribute") }) {
+			a := call.Common().Args
+			if c.Of(a[0]) == div {
+				if k, ok := core.ConstString(a[1]); ok {
+					attrs[k] = c.Of(a[2])
+				}
+			}
+		}
+		r.Add("H5", "placeholder data-type is the embed's Type", p.Pos(gen.Pos()), attrs["data-type"] == "$0.Type", "data-type = "+attrs["data-type"])
+		r.Add("H5", "placeholder data-id is the embed's ID", p.Pos(gen.Pos()), attrs["data-id"] == "$0.ID", "data-id = "+attrs["data-id"])
+		for _, ret := range core.Returns(gen) {
+			v := c.Of(ret.Results[0])
+			ok := v == `""` || v == "dom.OuterHTML("+div+")"
+			r.Add("H5", "placeholder is serialised from the DOM element", p.Pos(ret.Pos()), ok, "returns "+v)
 		}
 	}
 
